@@ -373,7 +373,7 @@ pub fn gen_scenario(run_seed: u64, variant: &str, tier: Tier) -> E2Scenario {
         for _ in 0..n {
             let p = (*rf.pick(&paths)).clone();
             let len = tree[&p].len().max(1);
-            let kind = *rf.pick(&["truncate", "truncate", "truncate", "bitflip", "bitflip", "splice", "empty", "badutf8", "unispace", "unispace", "vanish", "unreadable"]);
+            let kind = *rf.pick(&["truncate", "truncate", "truncate", "bitflip", "bitflip", "splice", "empty", "badutf8", "unispace", "unispace", "token_subst", "token_subst", "vanish", "unreadable"]);
             corruptions.push(Corruption { path: p, kind: kind.into(), a: rf.below(len), b: rf.below(8) });
         }
         // torn config writes that end shortly after a key: the value is a prefix of what it was
@@ -1718,6 +1718,25 @@ pub fn corrupt(tree: &mut Tree, c: &Corruption, all: &Tree) -> bool {
             let mut b = orig[..k].to_vec();
             b.extend_from_slice(&[0xff, 0xfe, 0xc3]);
             tree.insert(c.path.clone(), b);
+        }
+        "token_subst" => {
+            // a slip of the editor (wrong completion, pasted over the wrong word): one name of the
+            // file is replaced by another name that occurs in the same file
+            let Ok(text) = String::from_utf8(orig.clone()) else { return false };
+            let toks: Vec<indep::Tok> = indep::lex(&text).into_iter().filter(|t| t.kind == indep::TokKind::Name).collect();
+            if toks.len() < 2 {
+                return false;
+            }
+            let victim = &toks[c.a % toks.len()];
+            let donor = &toks[(c.a / toks.len() + c.b * 7 + 1) % toks.len()];
+            if victim.text == donor.text {
+                return false;
+            }
+            let mut out = String::new();
+            out.push_str(&text[..victim.byte]);
+            out.push_str(&donor.text);
+            out.push_str(&text[victim.byte + victim.text.len()..]);
+            tree.insert(c.path.clone(), out.into_bytes());
         }
         "unispace" => {
             // what an IME or a copy from a web page does: the indentation of one line becomes
